@@ -165,3 +165,18 @@ def filt_args(biort, qshift, form, inverse=False):
     if inverse:
         return (g0o, g1o), (g0a, g0b, g1a, g1b)
     return (h0o, h1o), (h0a, h0b, h1a, h1b)
+
+
+MASK_CONTAINERS = ['list', 'list', 'tuple', 'ndarray', 'int_list']
+
+
+def boxed_mask(m, kind):
+    """The containers a per-level mask (skip_hps / include_scale) may arrive in: list / tuple of bools, bool ndarray
+    (the constructor handles ndarrays explicitly), list of 0/1 integers; one bool for all levels stays as it is."""
+    if isinstance(m, bool) or kind == 'list':
+        return m
+    if kind == 'tuple':
+        return tuple(m)
+    if kind == 'int_list':
+        return [int(v) for v in m]
+    return np.array(m, dtype=bool)
